@@ -359,7 +359,36 @@ func (r *reader) evalCall(info *types.Info, x *ast.CallExpr, typ types.Type, ev 
 	if hasOpaque(out) {
 		return l
 	}
-	return out
+	// Nodes that stem from the constructor's body are reported at the call site.
+	return reposition(out, x.Pos(), x.End())
+}
+
+// reposition returns l with every node whose position lies outside [lo, hi)
+// (i.e. inside an inlined constructor) moved to lo.  Argument literals keep
+// their own positions; shared nodes are copied, not mutated.
+func reposition(l *Lit, lo, hi token.Pos) *Lit {
+	if l == nil {
+		return nil
+	}
+	c := *l
+	if c.Pos < lo || c.Pos >= hi {
+		c.Pos = lo
+	}
+	switch c.Kind {
+	case KList:
+		c.Elems = make([]*Lit, len(l.Elems))
+		for i, e := range l.Elems {
+			c.Elems[i] = reposition(e, lo, hi)
+		}
+	case KStruct:
+		c.Fields = make([]Field, len(l.Fields))
+		for i, f := range l.Fields {
+			c.Fields[i] = Field{f.Name, f.Var, reposition(f.Val, lo, hi)}
+		}
+	case KAddr, KDeref:
+		c.X = reposition(l.X, lo, hi)
+	}
+	return &c
 }
 
 // pureConstructor: composite literals, &, parens, conversions and identifiers
@@ -485,37 +514,50 @@ func named(t types.Type) string {
 
 // ints returns the integers of a list of integer constants (zero-filled).
 func (r *reader) ints(l *Lit) ([]*big.Int, error) {
+	v, _, err := r.intsAt(l)
+	return v, err
+}
+
+// intsAt is ints together with the source position of every element.
+func (r *reader) intsAt(l *Lit) ([]*big.Int, []token.Pos, error) {
 	l = r.resolve(l)
 	if l == nil {
-		return nil, fmt.Errorf("no value")
+		return nil, nil, fmt.Errorf("no value")
 	}
 	switch l.Kind {
 	case KZero:
 		n, ok := arrayLen(l.Type)
 		if !ok {
-			return nil, fmt.Errorf("zero value of a non-array type %v", l.Type)
+			return nil, nil, fmt.Errorf("zero value of a non-array type %v", l.Type)
 		}
 		out := make([]*big.Int, n)
+		at := make([]token.Pos, n)
 		for i := range out {
 			out[i] = new(big.Int)
+			at[i] = l.Pos
 		}
-		return out, nil
+		return out, at, nil
 	case KList:
 		out := make([]*big.Int, len(l.Elems))
+		at := make([]token.Pos, len(l.Elems))
 		for i, e := range l.Elems {
 			e = r.resolve(e)
+			at[i] = e.Pos
+			if !at[i].IsValid() {
+				at[i] = l.Pos
+			}
 			switch e.Kind {
 			case KInt:
 				out[i] = e.Int
 			case KZero:
 				out[i] = new(big.Int)
 			default:
-				return nil, fmt.Errorf("element %d is not an integer constant", i)
+				return nil, nil, fmt.Errorf("element %d is not an integer constant", i)
 			}
 		}
-		return out, nil
+		return out, at, nil
 	}
-	return nil, fmt.Errorf("not an array literal (kind %d)", l.Kind)
+	return nil, nil, fmt.Errorf("not an array literal (kind %d)", l.Kind)
 }
 
 func arrayLen(t types.Type) (int, bool) {
@@ -592,6 +634,37 @@ type Limbs struct {
 	Radix  string // "51x5", "25.5x10", "52x5", "29x9"
 	Widths []uint // bits per limb
 	V      []*big.Int
+	At     []token.Pos // position of every limb (may be nil)
+}
+
+// Canon splits v (0 <= v < 2^sum(widths)) into tight limbs of this radix.
+func (l *Limbs) Canon(v *big.Int) []*big.Int {
+	out := make([]*big.Int, len(l.Widths))
+	t := new(big.Int).Set(v)
+	for i, w := range l.Widths {
+		mask := new(big.Int).Sub(pow2(w), big1)
+		out[i] = new(big.Int).And(t, mask)
+		t.Rsh(t, w)
+	}
+	return out
+}
+
+// Diff returns a description and the position of the first limb that differs
+// from the canonical limbs of want ("" if the vector is not tight or equal).
+func (l *Limbs) Diff(want *big.Int) (string, token.Pos) {
+	if _, ok := l.Tight(); !ok {
+		return "", l.Pos
+	}
+	for i, c := range l.Canon(want) {
+		if c.Cmp(l.V[i]) != 0 {
+			pos := l.Pos
+			if i < len(l.At) && l.At[i].IsValid() {
+				pos = l.At[i]
+			}
+			return fmt.Sprintf("limb %d is %d (%#x), the definition has %d (%#x)", i, l.V[i], l.V[i], c, c), pos
+		}
+	}
+	return "", l.Pos
 }
 
 // Value is sum V[i] * 2^(offset_i).
@@ -670,11 +743,11 @@ func (r *reader) element(l *Lit) (*Limbs, error) {
 	if err != nil {
 		return nil, err
 	}
-	v, err := r.ints(inner)
+	v, at, err := r.intsAt(inner)
 	if err != nil {
 		return nil, err
 	}
-	return &Limbs{Pos: l.Pos, Radix: radix, Widths: widths, V: v}, nil
+	return &Limbs{Pos: l.Pos, Radix: radix, Widths: widths, V: v, At: at}, nil
 }
 
 // unpackedScalar reads a curve/scalar.unpackedScalar value.
@@ -690,11 +763,11 @@ func (r *reader) unpackedScalar(l *Lit) (*Limbs, error) {
 	if err != nil {
 		return nil, err
 	}
-	v, err := r.ints(l)
+	v, at, err := r.intsAt(l)
 	if err != nil {
 		return nil, err
 	}
-	return &Limbs{Pos: l.Pos, Radix: radix, Widths: widths, V: v}, nil
+	return &Limbs{Pos: l.Pos, Radix: radix, Widths: widths, V: v, At: at}, nil
 }
 
 // ExtPoint is an extended-coordinates literal (X:Y:Z:T).
